@@ -6,12 +6,22 @@ NOTES = ('All checks explore the real implementation in /repo (working tree) exh
 ENGINES = [
     {'name': 'E-sched', 'path': 'vt/explore/sched.py', 'serves_properties': ['C20'],
      'kind_free_text': 'stateless schedule explorer: real threads under a baton scheduler, DFS over choice prefixes with a preemption bound, every execution run to completion, deadlock/horizon detection, double replay of failing schedules'},
-    {'name': 'E-enum', 'path': 'vt/astgen.py, vt/par.py, vt/ref/', 'serves_properties': ['C01', 'C02', 'C03', 'C04', 'C08', 'C09', 'C11', 'C12', 'C13', 'C15', 'C16', 'C17', 'C18'],
+    {'name': 'E-enum', 'path': 'vt/astgen.py, vt/par.py, vt/ref/', 'serves_properties': ['C01', 'C02', 'C03', 'C04', 'C08', 'C09', 'C11', 'C12', 'C13', 'C14', 'C15', 'C16', 'C17', 'C18'],
      'kind_free_text': 'bounded-exhaustive program x data enumerator: all well-typed statements of bounded shape over the live registries x all tables/ledgers of bounded size over a value alphabet, executed on the real implementation and compared with a reference interpreter'},
     {'name': 'E-bfs', 'path': 'vt/explore/bfs.py', 'serves_properties': ['C10', 'C19'],
      'kind_free_text': 'explicit-state breadth-first search over operation histories on the product (real object, reference model) with canonical-state deduplication and closure detection'},
 ]
 CHECKS = {
+    'C14': {
+        'engine': 'E-enum',
+        'technique': 'bounded-exhaustive enumeration of ledgers x BALANCES/JOURNAL/PRINT statement forms against the SELECT expansions written from the property, direct beancount folds, and a print/reload round trip',
+        'design_ref': 'DESIGN.md section 4, C14',
+        'text': 'All 79 ledgers with <= 2 posting-producing snippets (+ 3 feature-rich ledgers) x 348 BALANCES and 783 JOURNAL statements (summary function none/units/cost x 29 FROM forms incl. 15 '
+                'OPEN/CLOSE/CLEAR subsets x WHERE conditions / 9 account patterns incl. quotes, case variation, no match): rows and datatypes equal the SELECT expansion, the account order equals '
+                'beancount account-type order, sums and running balances equal direct Inventory folds; all 379 ledgers with <= 2 of 27 snippets x 57 PRINT FROM forms over every directive type: the emitted '
+                'text equals beancount\'s printer on the entries selected by an independent predicate, and reloading it yields equal directives (thorough: n <= 4 / n <= 3, 3.3M statements).',
+        'note': 'Trusted: beancount printer/loader/account_types. Column names of BALANCES/JOURNAL not compared; PRINT round trip only for ledgers without pad/plugin and filters keeping lot reductions with their augmentations.',
+    },
     'C20': {
         'engine': 'E-sched',
         'technique': 'stateless model checking of real threads under a controlled baton scheduler: all interleavings of row/sub-expression yield points for pairs, preemption-bounded for triples, line granularity in thorough',
